@@ -128,6 +128,30 @@ SEEDS = [
  ("S141", "round6/V", 6, "C06", "cpp.rs: last_line_unterminated set for every line (#include x header ending in #endif without newline)", "error reported on line 5 instead of 4"),
  ("S142", "round6/V", 7, "C18", "assemble.rs optimize: new PHA-then-PLA peephole without the protected check (optimisation level x csleep(7))", "-O1: csleep(7) disappears"),
  ("S143", "round6/V", 8, "C14", "generate_function_call: flags reset only after real JSR calls (inline expansion x flags belief)", "X = 3; f(); if (X) tested without CPX #0 after the inlined LDY #7"),
+ ("S144", "round7/W", 1, "C11", "cpp.rs scanner: insert_it test on s2.is_empty() instead of uncommented_buf.is_empty()", "a comment glued after a string literal or after another comment's */ and running to the end of the line drops the whole line"),
+ ("S145", "round7/W", 2, "C09", "cpp.rs string-end search: 'fix' for three backslashes (ends_with two && !ends_with three)", "a literal ending in two escaped backslashes is not closed at its quote"),
+ ("S146", "round7/W", 3, "C11", "cpp.rs splice loop: no splice when the line contains //", "a backslash-newline after a line whose string literal contains // is kept"),
+ ("S147", "round7/W", 4, "C06", "cpp.rs #include: last_line_unterminated reset moved before the recursive call", "a header whose last line includes a file without final newline: later lines numbered one too high"),
+ ("S148", "round7/W", 5, "C07", "cpp.rs #ifndef: state logic merged (state != Active || defined => Inactive)", "the #else of an #ifndef nested in an unselected region is kept"),
+ ("S149", "round7/W", 6, "C08", "cpp.rs Context::undefine: rebuilds the LAST chunk's RegexSet instead of chunk k", "100+ macros, #undef in a full chunk: a later macro of that chunk no longer expands"),
+ ("S150", "round7/W", 7, "C08", "compile.rs -D handling: splitn(2, '=') became split('=')", "-DINIT=i=7 is cut at the second ="),
+ ("S151", "round7/W", 8, "C09", "compile.rs compile_quoted_string_ex: escape table reordered, \\f and \\v swapped", "literals and character constants with \\f or \\v"),
+ ("S152", "round7/X", 1, "C16", "compile.rs compile_quoted_string: bounds guard off by one (j <= len)", "@n@ with n equal to the number of string literals panics"),
+ ("S153", "round7/X", 2, "C16", "cpp.rs #define: the repeated-parameter check compares untrimmed text", "#define F(a, a) panics (duplicate capture group), F(a,a) still refused"),
+ ("S154", "round7/X", 3, "C16", "generate_assign: void check moved into the match arms, the Y arm keeps unreachable!()", "Y = f(); with a void f panics"),
+ ("S155", "round7/X", 4, "C13", "generate_condition (negated ||): .ifstart counter bumped after the left operand", "if ((a && b) || c) emits .ifstart1 twice"),
+ ("S156", "round7/X", 5, "C12", "generate_function_call: inline expansions not recorded in the call tree", "inline w() calls helper(): JSR helper in main, helper not in use, not emitted"),
+ ("S157", "round7/X", 6, "C05", "compile.rs parse_expr_init_value: sort of collected literals dropped", "a local initialiser with two or more string literals gets a hash-order layout"),
+ ("S158", "round7/X", 7, "C10", "compile.rs parse_calc <<: overflow check dropped", "(0x40000000 << 2) + 3 accepted as 3"),
+ ("S159", "round7/X", 8, "C13", "assemble.rs append_code: BMI and BPL missing from the renamed branches", "a signed comparison in an inline function keeps BPL .ifend1 aimed at the caller's label"),
+ ("S160", "round7/Y", 1, "C14", "generate_return: postponed operations purged on the RTS path only", "inline char h() { if (w) return t[X++]; .. }: the INX lands after JMP .endof"),
+ ("S161", "round7/Y", 2, "C01", "has_shortcut looks at the top operator only", "if (!(a || b)) .. else if (b): bare BEQ on stale flags"),
+ ("S162", "round7/Y", 3, "C01", "flags reset after a 16-bit shift moved to the call sites, the X-indexed short-array site forgotten", "X = v; t[X] <<= 1; if (X) branches on the ROL flags"),
+ ("S163", "round7/Y", 4, "C02", "optimize: INC/DEC of a plain operand only invalidates identically spelled beliefs", "A = buf,X; INC buf+2 with X == 2: the reload of buf,X is lost"),
+ ("S164", "round7/Y", 5, "C03", "check_branches: > 127 became > 128", "a forward branch over exactly 128 bytes"),
+ ("S165", "round7/Y", 6, "C18", "optimize: merged overwritten-load rule tests !i2.protected instead of !i1.protected", "load(*P); v = 1; loses the hardware read at -O1"),
+ ("S166", "round7/Y", 7, "C17", "asm(): superchip read port chosen by a positive list that forgets CPX/CPY", "if (X < s) with a superchip s reads the write port"),
+ ("S167", "round7/Y", 8, "C03", "append_code: inlined branches and JMPs rebuilt with nb_bytes 2", "each inlined JMP measured one byte short: a 129-byte backward branch left unrepaired"),
 ]
 CONTROLS = [("K01", "round2/E", 1, "cpp.rs: three-valued State enum replaced by two booleans"), ("K02", "round2/E", 2, "renamed generated local labels"),
             ("K03", "round2/E", 3, "new peephole rule: unreachable instruction after RTS/RTI removed"), ("K04", "round2/E", 4, "different instruction selection for X = Y / Y = X while the accumulator is in use"),
@@ -140,20 +164,23 @@ CONTROLS = [("K01", "round2/E", 1, "cpp.rs: three-valued State enum replaced by 
             ("K19", "round5/R", 9, "one helper builds both Pratt tables"), ("K20", "round5/R", 10, "#ifdef / #ifndef branches merged (is_some() != wanted)"),
             ("K21", "round6/T", 9, "short / pointer - 0xNN00: SBC #0 on the low byte skipped"), ("K22", "round6/T", 10, "signed char >> 7 as CMP #128 / LDA #0 / ADC #255 / EOR #255"),
             ("K23", "round6/V", 9, "check_branches: backward reach 128, forward 127"), ("K24", "round6/V", 10, "the 'continue label used' marking refactored completely, with a shared helper"),
+            ("K25", "round7/W", 9, "cpp.rs splice loop rewritten as while with rfind/truncate, read_line appending directly"), ("K26", "round7/W", 10, "scanner: split_once for the comment end, the // vs /* decision restated, the two string-end branches merged"),
+            ("K27", "round7/X", 9, "parse_int: the three radix arms merged into one from_str_radix call"), ("K28", "round7/X", 10, "call tree via entry().or_default().push(), visited test via set.insert()"),
+            ("K29", "round7/Y", 9, "asm() AbsoluteY arm: port-offset selection rewritten with write = (mnemonic == STA)"), ("K30", "round7/Y", 10, "four pure rewrites in optimize, check_branches (>= 128), the deferred purge (mem::take) and generate_if"),
             ("K09", "round3/I", 7, "csleep(9): NOP; NOP; DEC DUMMY instead of DEC DUMMY; NOP; NOP"), ("K10", "round3/J", 7, "several small refactors of -D parsing, undefine, #ifdef state match, folding")]
-REBASED = {("round2/C", 2): "rebased/C_patch_2.diff", ("round3/G", 6): "rebased/G_patch_6.diff", ("round3/J", 7): "rebased/J_patch_7.diff"}
+REBASED = {("round7/Y", 1): "round7/Y_rebased/patch_1.diff", ("round2/C", 2): "rebased/C_patch_2.diff", ("round3/G", 6): "rebased/G_patch_6.diff", ("round3/J", 7): "rebased/J_patch_7.diff"}
 
 BY_ID = {sid: (d, n) for (sid, d, n, *_rest) in SEEDS}
 BY_ID.update({sid: (d, n) for (sid, d, n, _w) in CONTROLS})
 conf = {}
-for fn in ("seed_confirm2.log", "seed_confirm3.log", "seed_confirm4.log", "seed_confirm5.log", "seed_confirm6.log"):
+for fn in ("seed_confirm2.log", "seed_confirm3.log", "seed_confirm4.log", "seed_confirm5.log", "seed_confirm6.log", "seed_confirm7.log"):
     for l in open(os.path.join(W, fn)):
         try:
             o = json.loads(l)
         except ValueError:
             continue
         d = o["dir"].rstrip("/")
-        key = {"/tmp/c2r": "round2/C"}.get(d, ("round2/" if "wt2_" in d else "round3/" if "wt3_" in d else "round4/" if "wt4_" in d else "round5/" if "wt5_" in d else "round6/") + d[-1])
+        key = {"/tmp/c2r": "round2/C"}.get(d, ("round2/" if "wt2_" in d else "round3/" if "wt3_" in d else "round4/" if "wt4_" in d else "round5/" if "wt5_" in d else "round6/" if "wt6_" in d else "round7/") + d[-1])
         conf[(key, int(o["n"]))] = o
 farm = {}
 for fn in sys.argv[1:]:
@@ -213,7 +240,10 @@ def save(sid, srcdir, n, meta, demo=True):
         how = "re-written by hand on the final tree: fix: commits had changed the same lines"
     else:
         open(os.path.join(out, "patch.diff"), "w").write(d)
-    if demo and os.path.exists(os.path.join(W, srcdir, "demo_%d.rs" % n)):
+    rdemo = os.path.join(os.path.dirname(src), "demo_%d.rs" % n)          # a demonstration adapted together with a hand-rebased patch
+    if demo and os.path.exists(rdemo):
+        shutil.copy(rdemo, os.path.join(out, "demo.rs"))
+    elif demo and os.path.exists(os.path.join(W, srcdir, "demo_%d.rs" % n)):
         shutil.copy(os.path.join(W, srcdir, "demo_%d.rs" % n), os.path.join(out, "demo.rs"))
     meta["patch_applies_to"] = "%s (%s%s)" % (head, how, "; hand-merged after a fix: commit touched the same lines" if (srcdir, n) in REBASED else "")
     json.dump(meta, open(os.path.join(out, "meta.json"), "w"), indent=1)
